@@ -366,6 +366,7 @@ func runHdrBeforeWrite(c *core.Ctx) {
 			fmt.Sprintf("status-200 body write not preceded by both headers (Content-Type nostr+json set before: %v, CORS * set before: %v): the answer is served with a sniffed Content-Type / without CORS", ct, cors))
 	}
 	n := 0
+	sharedDone := false
 	checked := map[*ssa.Call]bool{}
 	// the document may be written by a private method ServeHTTP hands the writer to
 	an.Region(nip, nil, func(o an.Occ) {
@@ -383,10 +384,20 @@ func runHdrBeforeWrite(c *core.Ctx) {
 		if !isCall {
 			return
 		}
-		if !isBodyWrite(w) || checked[w] || statusOnPath(w.Parent(), w) {
+		if !isBodyWrite(w) || statusOnPath(w.Parent(), w) {
 			return
 		}
 		gs := guardSummary(mux, o.Block())
+		if checked[w] {
+			// the mux's own answer written by the helper that writes the document (`writeNIP11(w, body)`):
+			// the same write behind the same headers, checked above
+			if hasAll(gs, `Accept=="`+nostrJSON+`"`) && !sharedDone {
+				sharedDone = true
+				n++
+				c.Trivial(nil, fname(c, mux), "branch:nostr+json/write", P.Pos(o.Site().Pos()), "the mux answers through the helper that writes the document: the same write, the same headers")
+			}
+			return
+		}
 		if hasAll(gs, `Accept=="`+nostrJSON+`"`) {
 			n++
 			check(w.Parent(), w, "branch:nostr+json/write")
@@ -430,12 +441,24 @@ func runNip11Body(c *core.Ctx) {
 		pos = w.Pos()
 		arg := w.Call.Args[len(w.Call.Args)-1]
 		if o.Path(arg) == "call:encoding/json.Marshal(recv)#0" {
-			// and only on the err == nil edge
+			// and only on the err == nil edge (tested where the document was marshalled: in the handler
+			// itself when the write sits in a helper that is handed the bytes)
 			for _, g := range an.Guards(w.Parent(), w.Block()) {
 				if b, isBin := g.V.(*ssa.BinOp); isBin && strings.Contains(o.Path(b), "call:encoding/json.Marshal(recv)#1") {
 					if (b.Op == token.NEQ) == !g.True {
 						nGood++
 						return
+					}
+				}
+			}
+			if len(o.Chain) > 0 {
+				site := o.Chain[0]
+				for _, g := range an.Guards(site.Parent(), site.Block()) {
+					if b, isBin := g.V.(*ssa.BinOp); isBin && strings.Contains(an.PathOf(b), "call:encoding/json.Marshal(recv)#1") {
+						if (b.Op == token.NEQ) == !g.True {
+							nGood++
+							return
+						}
 					}
 				}
 			}
